@@ -34,7 +34,7 @@ def plan(tier):
 
 
 def required(tier):
-    return ["all_records_known_contig", "some_records_unknown", "plain_output", "bgzip_output",
+    return ["round_run_length_cases", "all_records_known_contig", "some_records_unknown", "plain_output", "bgzip_output",
             "explicit_outind", "entries_verified", "multi_chromosome", "bgzip_multi_block"]
 
 
@@ -48,10 +48,16 @@ def run_case(ctx, rng, index, casedir):
     all_known = rng.random() < 0.5
     hi = 300 if ctx.tier == "quick" else rng.choice([300, 1500, 5000])
     bigout = index % 7 == 5  # output larger than one 64 KiB BGZF block (long optional fields)
-    w = SC.build(rng, casedir, index, nrec=rng.randint(120, 300) if bigout else rng.choice([1, 3, rng.randint(4, 40), rng.randint(40, hi)] + ([0] if rng.random() < 0.1 else [])),
-                 force_all_known=all_known, n_chrom=rng.choice([2, 3, 4]) if bigout else rng.choice([1, 2, 3, 4]),
-                 tags=["zl:Z:" + "y" * rng.choice([300, 700, 1500])] if bigout else
-                 (rng.choice(["safe", "safe", ["zl:Z:" + "y" * 700]]) if ctx.tier == "thorough" else "safe"))
+    if index % 40 == 13:
+        # one chromosome, every record on the reference: a single run of a round number of records
+        sit["round_run_length_cases"] += 1
+        w = SC.build(rng, casedir, index, nrec=rng.choice([256, 500, 512, 1000, 1024, 1536]), force_all_known=True, n_chrom=1, untagged=False, huge=False)
+        all_known = True
+    else:
+        w = SC.build(rng, casedir, index, nrec=rng.randint(120, 300) if bigout else rng.choice([1, 3, rng.randint(4, 40), rng.randint(40, hi)] + ([0] if rng.random() < 0.1 else [])),
+                     force_all_known=all_known, n_chrom=rng.choice([2, 3, 4]) if bigout else rng.choice([1, 2, 3, 4]),
+                     tags=["zl:Z:" + "y" * rng.choice([300, 700, 1500])] if bigout else
+                     (rng.choice(["safe", "safe", ["zl:Z:" + "y" * 700]]) if ctx.tier == "thorough" else "safe"))
     M.CTX["sort"] = (w.g, w.tags)
     keys = [SC.ref_tags(w.g, w.tags, l) for l in w.lines]
     sns = [k["sn"] for k in keys]
